@@ -1038,4 +1038,10 @@ func TestVerifC32(t *testing.T) {
 
 	// ---- the closed loop: NextActions -> answers to the strategy's own requests -> Process (zz_verif_c32_loop_test.go)
 	c32LoopGroups(r)
+
+	// ---- the real blockImporter with a REAL finality gadget: justified blocks (zz_verif_c32_just_test.go)
+	c32JustGroups(r)
+
+	// ---- the production loop body SyncService.runStrategy over a fake Network / RequestMaker (zz_verif_c32_svc_test.go)
+	c32SvcGroups(r)
 }
